@@ -8,13 +8,17 @@ EXTENDS Tabular
 
 Apply(st, op, fired) == ApplyCore(st, op, fired)
 
-\* result of the call itself (op-specific observations)
-AgreeRes(s, ns, op, res) ==
-  /\ "panic" \notin DOMAIN res
-  /\ (op.op = "regcb") => (res.regerr = IF RegOk(op) THEN 0 ELSE 1)
-  /\ (op.op = "setprop") => (res.err = 0)
-  /\ (op.op = "measure") => AgreeMetrics(op.parts, res.metrics)
-  /\ ("cblog" \in DOMAIN res) => AgreeCbLog(s, SlotsOf(s, op), res.cblog)
+BadResMore(s, ns, op, res) == {}
+
+\* result of the call itself (op-specific observations): the set of failing parts
+BadRes(s, ns, op, res) ==
+  {f \in {"res.panic", "res.regerr", "res.setprop", "res.metrics", "res.cblog"} :
+     CASE f = "res.panic"   -> "panic" \in DOMAIN res
+       [] f = "res.regerr"  -> op.op = "regcb" /\ "regerr" \in DOMAIN res /\ res.regerr # (IF RegOk(op) THEN 0 ELSE 1)
+       [] f = "res.setprop" -> op.op = "setprop" /\ "err" \in DOMAIN res /\ res.err # 0
+       [] f = "res.metrics" -> op.op = "measure" /\ "metrics" \in DOMAIN res /\ ~AgreeMetrics(op.parts, res.metrics)
+       [] f = "res.cblog"   -> "cblog" \in DOMAIN res /\ ~AgreeCbLog(s, SlotsOf(s, op), res.cblog)}
+  \cup BadResMore(s, ns, op, res)
 
 \* re-setting keys must not grow an owner's stored state: the chain of a cell is
 \* never longer than its keys (plus the renderers' private measuring keys)
